@@ -91,3 +91,91 @@ def parse_events(line):
     if not toks or toks[0] != "ok":
         return None
     return [(t.split(":")[0], t.split(":")[1:]) for t in toks[1:]]
+
+
+# ---------------------------------------------------------------------------------------------------
+# XDS network name / call letters (EIA 608 annex; libzvbi: the name is taken without leading blanks,
+# control codes inside become blanks) and the id libzvbi documents for XDS stations: a check sum over
+# the call letters, or over the name when no call letters are known, bit 30 set.
+
+def xds_filter(bs):
+    """what a received text field becomes: leading bytes up to 0x20 dropped, later ones raised to 0x20"""
+    i = 0
+    while i < len(bs) and bs[i] <= 0x20:
+        i += 1
+    return bytes(max(0x20, c) for c in bs[i:])
+
+
+def _hcrc(i):
+    s = 0
+    for j in range(7):
+        if i & (1 << j):
+            s ^= 0x48000000 >> j
+    return s
+
+
+HCRC = [_hcrc(i) for i in range(128)]
+
+
+def xds_nuid(text):
+    s = 0
+    for c in text:
+        s = (s >> 7) ^ HCRC[(s ^ c) & 0x7F]
+    return (s & ((1 << 31) - 1)) | (1 << 30)
+
+
+def cstr(buf):
+    """bytes of a char array before the first NUL"""
+    out = []
+    for c in buf:
+        if c == 0:
+            break
+        out.append(c)
+    return bytes(out)
+
+
+def strfu_spec(dst, src):
+    """what storing the received text `src` (7-bit bytes) into the char array `dst` must do:
+    -> (changed?, array afterwards) or None when the text does not fit.  String semantics only:
+    the array holds the filtered text and a terminator, bytes behind it are not touched, and
+    `changed` says whether the C string held before differs from the one held now."""
+    new = xds_filter(src)
+    if len(new) + 1 > len(dst):
+        return None
+    after = list(new) + [0] + list(dst[len(new) + 1:])
+    return (cstr(dst) != new), after
+
+
+# ---------------------------------------------------------------------------------------------------
+# programme identification as transmitted (EN 300 231): VPS bytes 5, 11..15 (our 2, 8..12) and packet
+# 8/30 format 2 bytes 13..25 (Hamming 8/4, bit-reversed nibbles)
+
+def vps_pid_spec(b):
+    """fields of the label a 13-byte VPS word carries: dict cni pil pcs pty"""
+    return {"cni": vps_cni_of(b), "pil": ((b[8] & 0x3F) << 14) + (b[9] << 6) + (b[10] >> 2), "pcs": b[2] >> 6, "pty": b[12]}
+
+
+_REV4 = [int("{:04b}".format(i)[::-1], 2) for i in range(16)]
+
+
+def _unham8(b):
+    best = None
+    for n, c in enumerate(HAM8):
+        if bin(c ^ b).count("1") <= 1:
+            best = n
+    return best
+
+
+def p8302_pid_spec(b):
+    """fields of the label a 42-byte packet 8/30 format 2 carries (None: a Hamming error in bytes 9..21).
+    EN 300 231 8.2.1: byte 13 = LCI b1 b2, LUF b3, PRF b4; then PCS, MI, CNI nibbles, PIL, PTY, LSB first."""
+    n = [_unham8(x) for x in b[9:22]]
+    if None in n:
+        return None
+    n = [_REV4[x] for x in n]           # transmitted LSB first: bit-reverse each nibble
+    # n[0] = byte 13: LCI(2) LUF PRF ; bytes 14.. as the seven bit-reversed bytes b7..b12 of the libzvbi docs
+    by = [(n[1 + 2 * i] << 4) | n[2 + 2 * i] for i in range(6)]     # b7 b8 b9 b10 b11 b12
+    b7, b8, b9, b10, b11, b12 = by
+    cni = ((b7 & 0x0F) << 12) + ((b10 & 0x03) << 10) + ((b11 & 0xC0) << 2) + (b8 & 0xC0) + (b11 & 0x3F)
+    return {"lci": (n[0] >> 2) & 3, "luf": (n[0] >> 1) & 1, "prf": n[0] & 1, "pcs": (b7 >> 6) & 3, "mi": (b7 >> 5) & 1,
+            "cni": cni, "pil": ((b8 & 0x3F) << 14) + (b9 << 6) + (b10 >> 2), "pty": b12}
